@@ -109,9 +109,12 @@ def decode_one(method, props, data, out_size, password):
         import brotli
         if data[:4] == b"\x50\x2a\x4d\x18":
             raise RefError("unsupported coder: brotli-mt skippable frames")
-        # py7zr ends its brotli streams with flush(), not finish(): decode incrementally and let the
-        # declared size decide (a one-shot decompress would demand the final-block marker)
-        return brotli.Decompressor().process(data)
+        # a packed stream is a COMPLETE brotli stream (final-block marker included), as for every other coder here
+        dec = brotli.Decompressor()
+        out = dec.process(data)
+        if not dec.is_finished():
+            raise RefError("brotli stream is not finished (no final-block marker)")
+        return out
     if method == "030401":
         import pyppmd
         order, mem = struct.unpack("<BL", props[:5])
